@@ -79,6 +79,8 @@ func (st *state) dispatch(toks []string) (string, string) {
 		return st.apiOp(toks)
 	case "frag":
 		return fragOp(toks), ""
+	case "geo":
+		return geoOp(toks), ""
 	case "watch", "feed", "replicate", "watchp", "feedp", "watchx", "unwatchx":
 		now := time.Now().UnixMilli()
 		return st.feedOp(toks), fmt.Sprintf(" now=%d", now)
